@@ -261,6 +261,11 @@ def well_formed(g):
             if k == "unord":
                 if len(e["es"]) < 2 or any(x.get("sup") for x in e["es"]):
                     return False
+                for x in e["es"]:
+                    if may_resultless(g, x) and not (
+                            (x["k"] in ("opt", "star") and not may_resultless(g, x["e"]))
+                            or (x["k"] == "asg" and x["op"] in ("?=", "*="))):
+                        return False
             if k == "asg":
                 if may_resultless(g, e["rhs"]):
                     return False
@@ -456,7 +461,16 @@ class GrammarGen:
                     r["ws"] = codes(self.pick([" ", "\n", " \t", "\n "]))
                 rules.append(r)
             if self.chance(self.o["comment"]):
-                rules.append(RuleD("Comment", Re("#", " ab", 0, "")))
+                form = self.rng.random()
+                line = Re("#", " ab", 0, "")
+                if form < 0.6:
+                    rules.append(RuleD("Comment", line))
+                elif form < 0.8:        # a single rule reference
+                    rules.append(RuleD("Comment", Ref("LineC")))
+                    rules.append(RuleD("LineC", line))
+                else:                   # a choice of a reference and a regex
+                    rules.append(RuleD("Comment", Alt([Ref("LineC"), Re("%", "ab", 1, "%")])))
+                    rules.append(RuleD("LineC", line))
             g = dict(rules=rules)
             # every non-root rule must be referenced, or it is dead weight: fine, textX allows it.
             if well_formed(g):
